@@ -1002,6 +1002,23 @@ def c_cholsolve(func, args, kwargs):
     return batched(f, L, B)
 
 
+@simple(aten.cholesky_inverse.default)
+def c_cholinverse(func, args, kwargs):
+    """(L L^T)^-1 (or (U^T U)^-1 with upper=True) from the triangular factor"""
+    L = A_(args[0])
+    upper = args[1] if len(args) > 1 else kwargs.get("upper", False)
+    def f(L):
+        if upper:
+            L = L.T
+        n = L.shape[-1]
+        I = np.empty((n, n), dtype=object)
+        for i in range(n):
+            for j in range(n):
+                I[i, j] = Sym.const(1.0 if i == j else 0.0)
+        return tri_solve_upper(L.T, tri_solve_lower(L, I))
+    return batched(f, L)
+
+
 def _trisolve(A, B, upper, left, unit):
     def f(A, B):
         # the kernel reads only the named triangle
